@@ -16,6 +16,25 @@ NOTES = ('Every check executes the implementation in /repo/src (working tree) '
          'DESIGN.md.')
 
 CHECKS = [
+    {'id': 'C18', 'engine': 'explore', 'level': 'exploration',
+     'design_ref': 'DESIGN.md §4 C18',
+     'technique': 'bounded exhaustive enumeration of option subsets x ways '
+                  'the test phase ends on the real Runner in-process, '
+                  'before/after snapshot of interpreter-global state',
+     'text': 'Every subset of size <=3 (thorough: all 256) of the eight '
+             'state-changing options (--gc a, --gc a b c, -G flag, --coverage, '
+             '--profile cProfile, --buffer, warnings argument, -D with '
+             'scripted stdin) is combined with eight endings (all pass, '
+             'failures, layer testSetUp / testTearDown raising, '
+             'KeyboardInterrupt in a body / in setUp, -x, SystemExit from a '
+             'layer setUp); gc thresholds and flags, the traceback formatting '
+             'functions, sys.settrace, active trace/profile hooks, '
+             'warnings.filters and the identity of sys.stdout/sys.stderr '
+             'must be what they were before the run.',
+     'note': 'Signal handlers and logging handlers are not in the stated '
+             'state (the runner does leave a NullHandler on the root logger '
+             'per run; the harness removes it). -D only with scripted '
+             '"continue".'},
     {'id': 'C17', 'engine': 'explore', 'level': 'exploration',
      'design_ref': 'DESIGN.md §4 C17',
      'technique': 'exhaustive enumeration of every Unicode code point (block '
